@@ -235,3 +235,55 @@ def build_branch_end(spec):
     if spec['scope'] == 'func':
         return [('func', 'ff', [], False, body), ('assign', 'rr', ('call', 'ff', [])), log()]
     return body
+
+
+# ---------------------------------------------------------------- a complete inner loop next to the outer loop's own break / continue
+
+LT_OUTER = ('for', 'while')
+LT_INNER = ('for', 'while', 'for+continue', 'while+break', 'for-in-if', 'for-in-for')
+LT_EXIT = ('continue', 'break')
+LT_PLACE = ('before', 'after', 'both', 'after-bare')
+LT_SCOPE = ('global', 'func')
+
+
+def loop_tail_specs():
+    return [{'outer': o, 'inner': i, 'exit': e, 'place': p, 'scope': sc}
+            for o in LT_OUTER for i in LT_INNER for e in LT_EXIT for p in LT_PLACE for sc in LT_SCOPE]
+
+
+def build_loop_tail(spec):
+    """The outer loop's own continue / break placed before and/or after a COMPLETE nested loop of its body."""
+    log = lambda t: ('expr', ('call', 'systemLog', [('str', t)]))  # noqa: E731
+    cc = ('call', 'cc', [])
+    kind = spec['inner']
+    if kind == 'for':
+        inner = [('for', 'u', None, ('call', 'pk', []), [log('i1')])]
+    elif kind == 'while':
+        inner = [('while', cc, [log('i1')])]
+    elif kind == 'for+continue':
+        inner = [('for', 'u', 'ui', ('call', 'pk', []), [('if', [(cc, [('continue',)])], None), log('i1')])]
+    elif kind == 'while+break':
+        inner = [('while', cc, [log('i1'), ('if', [(cc, [('break',)])], None), log('i2')])]
+    elif kind == 'for-in-if':
+        inner = [('if', [(cc, [('for', 'u', None, ('call', 'pk', []), [log('i1')])])], [log('ie')])]
+    else:
+        inner = [('for', 'u', None, ('call', 'pk', []), [('for', 't', None, ('call', 'arrayNew', [('num', 1)]), [('if', [(cc, [('continue',)])], None), log('i0')]), log('i1')])]
+    ex = (spec['exit'],)
+    guarded = lambda: ('if', [(cc, [ex])], None)  # noqa: E731
+    body = [log('o1')]
+    if spec['place'] in ('before', 'both'):
+        body.append(guarded())
+    body.extend(inner)
+    body.append(log('o2'))
+    if spec['place'] in ('after', 'both'):
+        body.extend([guarded(), log('o3')])
+    elif spec['place'] == 'after-bare':
+        body.append(ex)
+    if spec['outer'] == 'for':
+        loop = ('for', 'v', None, ('call', 'pk', []), body)
+    else:
+        loop = ('while', cc, body)
+    prog = [log('start'), loop, log('end')]
+    if spec['scope'] == 'func':
+        return [('func', 'ff', [], False, prog + [('return', ('str', 'done'))]), ('assign', 'rr', ('call', 'ff', [])), log('after')]
+    return prog
